@@ -51,6 +51,7 @@ def make_table(rng, kind):
         rng.shuffle(keys)
     elif kind == 'text':
         keys = sorted(rng.sample(['apple', 'bee', 'cat', 'dog', 'eel', 'fox', 'gnu', 'hen', 'ibis', 'jay', 'kiwi', 'lynx'], n))
+        keys = [k.capitalize() if i % 3 == 1 else k for i, k in enumerate(keys)]      # sorted without regard to case
     elif kind == 'text_unsorted_dup':
         base = rng.sample(['apple', 'bee', 'cat', 'dog', 'eel', 'fox'], 5)
         keys = base + rng.sample(base, 3)
@@ -76,6 +77,8 @@ def lookups_for(rng, kind, keys):
     out = list(dict.fromkeys(real))
     if kind.startswith('text'):
         out += ['aardvark', 'zebra', 'cow', 'bee ', 7]
+        # the same keys in another case: text keys match without regard to case in every lookup function
+        out += [k.upper() for k in real[:3]] + [k.capitalize() for k in real[3:5]] + ['COW', 'Zebra']
     else:
         lo, hi = min(real), max(real)
         out += [lo - 1, hi + 1, hi + 100, lo - 0.5]
@@ -118,7 +121,7 @@ def classify(case, out, outs):
     return None
 
 
-def plan(tier, seed):
+def _plan(tier, seed):
     shards = []
     nb = 6 if tier == 'quick' else 40
     for i, kind in enumerate(KINDS):
@@ -335,6 +338,9 @@ def run_column(shard, ctx):
 
 
 def run_shard(shard, ctx):
+    if isinstance(shard, dict) and 'mixed' in shard:
+        from ..mixed import run_mixed
+        return run_mixed(ctx, ID, shard['n'])
     if 'replay' in shard:
         c = shard['replay']
         if c.get('fn') == 'ADDRESS':
@@ -349,3 +355,8 @@ def finish(r, tier, seed):
     return {**extra, 'helper_calls': {k: v for k, v in r.counters.items() if k.startswith('helper:')}, 'exhaustive': False,
             'exhaustive_subspaces': ['ADDRESS over all columns 1..16384 x rows {1,77,1048576}',
                                      'INDEX over (r,c) in [-1..6]^2 for all area shapes up to 4x4']}
+
+
+def plan(tier, seed):
+    # 'mixed': nests over the whole function set that use at least one function of this property (vf/mixed.py)
+    return _plan(tier, seed) + [{'mixed': k, 'n': 3 if tier == 'quick' else 60} for k in range(3 if tier == 'quick' else 8)]
